@@ -24,7 +24,7 @@ META = {
 }
 BV_AX = [r".*\._native\.bv_decide\.ax_.*", r"Lean\.ofReduceBool", r"Lean\.trustCompiler"]
 GCC_ARGS = ["-static", "-z", "noexecstack", "-nostdlib"]          # internal/app/appnative/native_x64/build_wa_wz.go
-RUN_TIMEOUT = 20
+RUN_TIMEOUT = 120
 
 
 # ------------------------------------------------------------------------------------------------ running both ways
